@@ -2,8 +2,9 @@
 which oracle kinds the property owns, campaign sizes per tier."""
 
 LOCK_GEN = ("cases = (lock class, client program over the lock DSL, schedule) drawn from rapidcheck generators "
-            "(transaction templates + structural noise; schedules: none / 1-6 targeted step-level preemptions / dense random "
-            "preemptions / op-level preemptions, optional spurious weak-CAS failures); distinct = distinct 64-bit FNV hash of the "
+            "(transaction templates + structural noise; long-lived holders (HOLD n), now and then one thread holding 31..65537 shared grants at "
+            "once (S_MANY); schedules: none / 1-6 targeted step-level preemptions, optionally a burst of 2-3 switches of one thread within a few steps / "
+            "dense random preemptions / op-level preemptions, optional spurious weak-CAS failures), plus the programs x schedules of the bounded sweeps; distinct = distinct 64-bit FNV hash of the "
             "case text (program + schedule); non-trivial = ")
 
 RULES = {
@@ -62,13 +63,15 @@ def lock_stages(profile, quick_cases, thorough_cases, thorough_r10=None):
 
 
 THREAD_GEN = ("cases = (capacity variant, history of thread starts/exits with generated probe starts (hash of the thread id), "
-              "GetThreadID/GetHeartBeat calls, epoch-guard creation/moves/destruction, coordinator forwards incl. bulk positioning next to "
-              "256-epoch node boundaries, schedule with step-level preemptions incl. inside the thread-exit destructors) drawn from rapidcheck "
-              "generators, each executed in a forked child; distinct = distinct 64-bit FNV hash of the case text; non-trivial = ")
+              "GetThreadID/GetHeartBeat calls, long-lived holders, epoch-guard creation/refresh/moves/destruction incl. overlapping guards of one thread, "
+              "coordinator forwards incl. bulk positioning next to 256-epoch node boundaries, a late-reservation scenario template, schedule with "
+              "step-level preemptions incl. inside the thread-exit destructors) drawn from rapidcheck generators, each executed in a forked child, "
+              "plus the histories x schedules of the bounded sweep; distinct = distinct 64-bit FNV hash of the case text; non-trivial = ")
 RULES.update({
     "C05": THREAD_GEN + "two threads with the same probe start were claiming an ID at the same time, or a probe wrapped around the table",
     "C14": THREAD_GEN + "a claim overlapped another thread's exit cleanup, or a thread found every ID taken and had to wait",
-    "C15": THREAD_GEN + "an ID was re-issued while its previous owner was inside exit cleanup or after it exited",
+    "C15": THREAD_GEN + "an ID was re-issued while its previous owner was inside exit cleanup or after it exited (epoch histories of the "
+                        "smart-pointer stage: a forward ran while another thread's guard was alive and a thread start/exit happened in the case)",
     "C04": THREAD_GEN + "a forward ran while >= 1 guard of another thread was alive and a thread start/exit happened in the case",
     "C16": THREAD_GEN + "a quiescent forward directly followed a period with pinned epochs, or a forward crossed a 256-epoch node boundary",
     "C17": THREAD_GEN + "a forward completed while a worker was inside GetProtectedEpochs, or a list node was retired while a guard was alive",
@@ -76,8 +79,9 @@ RULES.update({
 
 THREAD_ASSUME = [
     "only sequentially consistent interleavings; scheduling points before every atomic operation and after every atomic write, thread-exit destructors run under the scheduler",
-    "shared_ptr/weak_ptr control blocks and the non-atomic fields of EpochManager are not instrumented (no scheduling points inside them)",
-    "hash(thread::id) is replaced by a generated probe start; capacities are compile-time: variants 1-8 (quick tier: a subset)",
+    "shared_ptr/weak_ptr reference-count operations are scheduling points only in the thread_p* variants (one stage per tier); the non-atomic fields of "
+    "EpochManager are scheduling points only at the guarded hook sites",
+    "hash(thread::id) is replaced by a generated probe start; capacities are compile-time: variants 1-8 and 70 (quick tier: a subset)",
     "threads hold at most one epoch guard at a time; thread 0 is the only caller of ForwardGlobalEpoch",
 ]
 
